@@ -225,13 +225,20 @@ fn sweep<RK: RadioKind>(rk: &mut RK, bus: &Bus, variant: &str, pa: &str, freq: u
     // order of requests: ascending, descending, then a shuffle (state left by one request must
     // not leak into the next, e.g. a stale high-power PaDac)
     let mut order: Vec<i32> = (-128..=127).collect();
+    if col.tier == Tier::Sanitizer {
+        order = (-20..=24).collect();
+    }
     order.extend((-128..=127).rev());
     let mut sh: Vec<i32> = (-128..=127).chain(EXTREMES.iter().copied()).collect();
     for i in (1..sh.len()).rev() {
         let j = rng.below(i as u64 + 1) as usize;
         sh.swap(i, j);
     }
-    order.extend(sh);
+    if col.tier == Tier::Sanitizer {
+        order.truncate(45);
+    } else {
+        order.extend(sh);
+    }
     order.extend(EXTREMES.iter().copied());
 
     let mut first_seen: BTreeMap<i32, Seen> = BTreeMap::new();
@@ -276,8 +283,9 @@ fn sweep<RK: RadioKind>(rk: &mut RK, bus: &Bus, variant: &str, pa: &str, freq: u
             Dec::Illegal(kind, why) => {
                 viol(col, &format!("C17|power|{}|{}/{}", kind, path, reqclass), "PA settings break a data sheet rule", || json!({"input": inp(Some(&s)), "why": why}));
             }
-            Dec::Undecodable(_) => {
+            Dec::Undecodable(why) => {
                 col.event(&format!("power_undecodable:{}", variant));
+                col.notes.entry(format!("power_undecodable:{}", path)).or_insert(json!(why));
             }
             Dec::Power(cands) => {
                 col.event("power_decoded");
